@@ -56,6 +56,43 @@ func c19Emit(t *tr) {
 	t.emitZ("max_retry_duration", "maxRetryDuration")
 	t.c19EmitSecureCAURL()
 	t.c19EmitIssueShape()
+	t.c19EmitDefaultCAs()
+}
+
+// DefaultACME = ACMEIssuer{CA: ..., TestCA: ...}: the directory URLs NewACMEIssuer fills in.
+func (t *tr) c19EmitDefaultCAs() {
+	d, ok := t.decls["DefaultACME"]
+	if !ok {
+		t.errf("missing declaration DefaultACME")
+		return
+	}
+	cl, ok := d.(*ast.CompositeLit)
+	if !ok {
+		t.errf("DefaultACME: expected a composite literal")
+		return
+	}
+	found := 0
+	for _, e := range cl.Elts {
+		kv, ok := e.(*ast.KeyValueExpr)
+		if !ok {
+			continue
+		}
+		switch exprStr(kv.Key) {
+		case "CA":
+			if v, ok := t.strLit(kv.Value, "DefaultACME.CA"); ok {
+				t.p("Definition default_acme_ca : str := %s. (* DefaultACME.CA = %q *)\n", coqStr(v), v)
+				found++
+			}
+		case "TestCA":
+			if v, ok := t.strLit(kv.Value, "DefaultACME.TestCA"); ok {
+				t.p("Definition default_acme_test_ca : str := %s. (* DefaultACME.TestCA = %q *)\n", coqStr(v), v)
+				found++
+			}
+		}
+	}
+	if found != 2 {
+		t.errf("DefaultACME: CA / TestCA not both found")
+	}
 }
 
 // secureCAURL (acmeclient.go) must begin with
